@@ -34,11 +34,11 @@ import (
 	"github.com/0chain/common/core/util"
 )
 
-type hleaf string
+type c19Hashable string
 
-func (h hleaf) GetHash() string { return string(h) }
+func (h c19Hashable) GetHash() string { return string(h) }
 
-func (h hleaf) GetHashBytes() []byte { return unhx(string(h)) }
+func (h c19Hashable) GetHashBytes() []byte { return unhx(string(h)) }
 
 func c19Hash(s string) string { return hx(sha3sum([]byte(s))) }
 
@@ -122,7 +122,7 @@ func c19Short(p []string) string {
 	return "[" + strings.Join(o, " ") + "]"
 }
 
-func eqStrs(a, b []string) bool {
+func c19EqStrs(a, b []string) bool {
 	if len(a) != len(b) {
 		return false
 	}
@@ -157,7 +157,7 @@ func runC19(ops []string) CaseResult {
 	}
 	atoi := func(s string) int { v, _ := strconv.Atoi(s); return v }
 	verdicts := func(h string, p *util.MTPath) (bool, bool) {
-		return mt.VerifyPath(hleaf(h), p), util.VerifyMerklePath(h, p, mt.GetRoot())
+		return mt.VerifyPath(c19Hashable(h), p), util.VerifyMerklePath(h, p, mt.GetRoot())
 	}
 	v2s := func(a, b bool) string {
 		if a != b {
@@ -170,7 +170,7 @@ func runC19(ops []string) CaseResult {
 		if p.LeafIndex != want {
 			fail(i, "path has leaf index %d, want %d", p.LeafIndex, want)
 		}
-		if sp := c19SpecPath(lv, want); !eqStrs(p.Nodes, sp) {
+		if sp := c19SpecPath(lv, want); !c19EqStrs(p.Nodes, sp) {
 			fail(i, "path nodes of index %d (n=%d) differ from the sibling list of the levels: got %s want %s", want, len(leaves), c19Short(p.Nodes), c19Short(sp))
 		}
 		if !c19Fold(leaves[want], p.Nodes, p.LeafIndex, root) {
@@ -217,7 +217,7 @@ func runC19(ops []string) CaseResult {
 			case "compute":
 				hs := make([]util.Hashable, len(leaves))
 				for k, l := range leaves {
-					hs[k] = hleaf(l)
+					hs[k] = c19Hashable(l)
 				}
 				mt = &util.MerkleTree{}
 				mt.ComputeTree(hs)
@@ -228,7 +228,7 @@ func runC19(ops []string) CaseResult {
 					flat = append(flat, l...)
 				}
 				t := mt.GetTree()
-				if !eqStrs(t, flat) {
+				if !c19EqStrs(t, flat) {
 					fail(i, "tree array (n=%d, %d entries) is not the concatenation of the levels (%d entries)", len(leaves), len(t), len(flat))
 				}
 				if mt.GetRoot() != root {
@@ -252,7 +252,7 @@ func runC19(ops []string) CaseResult {
 				if f[0] == "pathidx" {
 					p = mt.GetPathByIndex(k)
 				} else {
-					p = mt.GetPath(hleaf(leaves[k]))
+					p = mt.GetPath(c19Hashable(leaves[k]))
 					for want = 0; leaves[want] != leaves[k]; want++ {
 					}
 					if want != k {
@@ -267,7 +267,7 @@ func runC19(ops []string) CaseResult {
 				return fmt.Sprintf("ok %d %s %v %v", p.LeafIndex, c19Nodes(p.Nodes), a, b)
 			case "pathmissing":
 				h := c19Hash(f[1])
-				p := mt.GetPath(hleaf(h))
+				p := mt.GetPath(c19Hashable(h))
 				a, b := verdicts(h, p)
 				if len(p.Nodes) != 0 || p.LeafIndex != 0 || a || b {
 					fail(i, "lookup of a non-member returned a path (%d nodes) or verified (%v,%v)", len(p.Nodes), a, b)
@@ -358,10 +358,10 @@ func runC19(ops []string) CaseResult {
 				}
 				for k := range leaves {
 					p := t2.GetPathByIndex(k)
-					if sp := c19SpecPath(lv, k); !eqStrs(p.Nodes, sp) || p.LeafIndex != k {
+					if sp := c19SpecPath(lv, k); !c19EqStrs(p.Nodes, sp) || p.LeafIndex != k {
 						fail(i, "loaded tree: path of index %d differs from the original tree's", k)
 					}
-					if !t2.VerifyPath(hleaf(leaves[k]), p) {
+					if !t2.VerifyPath(c19Hashable(leaves[k]), p) {
 						fail(i, "loaded tree: own path of index %d rejected", k)
 					}
 				}
@@ -438,7 +438,18 @@ func c19Case(r *rand.Rand, n int, tag string, dups int, tier string) []string {
 		ops = append(ops, fmt.Sprintf("offerrand %d r%d", i, r.Intn(1000)))
 	}
 	if n > offerAllMax {
-		ops = append(ops, fmt.Sprintf("offerall %d", n-1), fmt.Sprintf("offerall %d", r.Intn(n)))
+		// every other leaf offered with the path of the last and of a random index (sampled for very large trees)
+		for _, i := range []int{n - 1, r.Intn(n)} {
+			if n <= 600 {
+				ops = append(ops, fmt.Sprintf("offerall %d", i))
+			} else {
+				for k := 0; k < 24; k++ {
+					if j := r.Intn(n); j != i {
+						ops = append(ops, fmt.Sprintf("offer %d %d", i, j))
+					}
+				}
+			}
+		}
 	}
 	for k := 0; k < 3; k++ {
 		i := idxs[r.Intn(len(idxs))]
